@@ -201,7 +201,7 @@ func walkGen(r *rand.Rand, count int, emit func(op string, args ...string)) {
 						nested = d[len(root)+1:]
 					}
 				}
-				forms := []string{"./" + root, root + "/", root + "//", root + "/../" + root, root + "/./../" + root}
+				forms := []string{"./" + root, root + "/", root + "//", root + "/../" + root, root + "/./../" + root, ".//" + root, "././" + root, ".///" + root + "/"}
 				if nested != "" {
 					forms = append(forms, root+"/./"+nested, root+"/"+nested+"/..", root+"//"+nested, root+"/"+nested+"/../"+nested)
 				}
